@@ -87,6 +87,16 @@ CHECKS = {
             "status reads per path; streamer configurations sampled by VERIF_SEED; one known finding (RoCC default-0 "
             "partner when state unknown) listed in known_findings.json.",
             "bounded symbolic execution of before/after IR on abstract/concrete CSR machines + z3; symbolic address-map injectivity", "3/C04"),
+    "C17": (TV,
+            "Translation validation of the real pipeline-canonicalize-for and reuse-memref-allocs: generated loop nests "
+            "(depth<=3, constant upper bounds as symbolic holes planted into arith.constant, steps {1,2,3,4,5,7}, dynamic "
+            "bounds from symbolic arguments, effectful ops before/after/inside inner loops) and loops with allocs/"
+            "memref.dim/subviews/affine.min sizes are executed before and after by the symbolic IR interpreter; z3 "
+            "proves identical traces of side-effecting ops with their evaluated index/size operands on every path.",
+            "hole ranges cover trip counts 0..3 (0..2 in nests) incl. non-multiples of the step; int-mode index "
+            "arithmetic; allocations compared by buffer sizes reaching users; two known findings (imperfect-nest merge, "
+            "affine.min replaced by its maximum) are blessed by upstream filecheck expectations and listed.",
+            "bounded symbolic execution of before/after IR + z3 trace-equality queries", "3/C17"),
 }
 
 NOT_YET = "check not built yet (work in progress in this round); no claim is made"
